@@ -349,6 +349,82 @@ def record_mult(np, StateManager, Resampler, sizes, blobs, n, seed, w):
 
 
 # --------------------------------------------------------------------------- main
+def spec_comb(n, a, Q, k):
+    """Transliteration of Resample.tla's intended comb on its integer inputs (offset k/(2Q), cells [A_{j-1}, A_j) / sum(a)):
+    tooth i selects the first j with (k + 2 Q i) * sum(a) < 2 n Q A_j ... in units where the weights are a_j / Q.  Validated in
+    every run against the index vector TLC computed for every replayed small state (see `transliteration_checked`); used to judge
+    inputs that are too long for TLC to enumerate (histories longer than 2^16 entries)."""
+    out, j, A = [], 0, a[0]
+    last = max(i for i, v in enumerate(a) if v > 0)
+    for i in range(n):
+        t = k + 2 * Q * i            # tooth position * 2 Q n
+        while j < last and t >= 2 * n * A:
+            j += 1
+            A += a[j]
+        out.append(j + 1)
+    return tuple(out)
+
+
+def large_part(ck, np, tools, rng, quick):
+    """Long weight vectors (N > 2^16, exact dyadic weights: judged by the validated transliteration) and weight vectors whose sum
+    is OUTSIDE the no-renormalisation band (|sum - 1| > sqrt(eps)): there the routine renormalises, so the floor/ceil law is
+    decided against w / sum(w) for large n (n |sum - 1| > 1: a routine that widens its band mis-counts the last positive index)."""
+    done = {"long_vectors": 0, "renormalised_vectors": 0}
+    Q = 2 ** 17
+    for N, twos in ((70001, Q - 70001), (65537, Q - 65537)) if quick else ((70001, Q - 70001), (65537, Q - 65537), (100003, Q - 100003), (131072, 0)):
+        a = [2] * twos + [1] * (N - twos)
+        assert sum(a) == Q
+        perm = rng.permutation(N)
+        a = [a[i] for i in perm]
+        if N % 2:
+            a[0], a[-1] = 0, a[0] + a[-1]   # a zero first weight and a heavier last one
+        w = [ai / Q for ai in a]
+        for n in (3, 64, 257):
+            for k in (0, 1, Q, 2 * Q - 1):
+                out, err, _ = call_systematic(np, tools, n, w, k / (2 * Q))
+                want = spec_comb(n, a, Q, k)
+                done["long_vectors"] += 1
+                if err or out != want:
+                    bad = "raised " + str(out) if err else f"first difference at tooth {next(i for i, (x, y) in enumerate(zip(out, want)) if x != y)}"
+                    cnt = None if err else np.bincount(np.array(out) - 1, minlength=N)
+                    law = None if err else bool(np.all(np.abs(cnt - n * np.array(w)) < 1))
+                    ck.violation("large:comb", f"systematic_resample on a weight vector of length {N} (exact dyadic weights, n={n}, u0={k}/{2 * Q}): {bad}; "
+                                 f"floor/ceil law holds: {law}", {"kind": "large", "N": N, "n": n, "k": k, "Q": Q, "seed": ck.seed})
+                    break
+    below1 = float(np.nextafter(1.0, 0.0))
+    for N in (8, 64):
+        for delta in (1e-7, -1e-7, 1e-6, -1e-6, 5e-6, -5e-6, 1e-5, -1e-5, 1e-4, -1e-4, 1e-2, 2.0):
+            base = rng.dirichlet(np.ones(N) * 0.7)
+            if N == 8:
+                base[rng.randint(N)] = 0.0
+                base /= base.sum()
+            w = base * (1.0 + delta)
+            s = float(np.sum(w))
+            if abs(s - 1.0) <= 2 * 1.4901161193847656e-08:
+                continue
+            p = w / s
+            for n in (2 ** 18, 300007):
+                for u0 in (0.0, 0.37, below1):
+                    out, err, _ = call_systematic(np, tools, n, list(w), u0)
+                    done["renormalised_vectors"] += 1
+                    if err:
+                        ck.violation("renorm:raised", f"systematic_resample raised {out} on weights with sum {s!r} (n={n})", {"kind": "renorm", "N": N, "delta": delta, "n": n, "u0": u0, "seed": ck.seed})
+                        break
+                    idx = np.array(out) - 1
+                    cnt = np.bincount(idx, minlength=N)
+                    e = n * p
+                    near = np.abs(e - np.round(e)) < 1e-6
+                    okc = (cnt >= np.floor(e) - near) & (cnt <= np.ceil(e) + near)
+                    if len(idx) != n or np.any(np.diff(idx) < 0) or np.any(cnt[w == 0.0] > 0) or not np.all(okc):
+                        j = int(np.argmin(okc)) if not np.all(okc) else -1
+                        ck.violation("renorm:law", f"weights with sum {s!r} (|sum-1| > sqrt(eps): the routine renormalises), n={n}, u0={u0!r}: "
+                                     f"index {j} copied {int(cnt[j]) if j >= 0 else '?'} times, n*w/sum(w) = {float(e[j]) if j >= 0 else '?'}; "
+                                     f"length {len(idx)}, sorted {not np.any(np.diff(idx) < 0)}",
+                                     {"kind": "renorm", "N": N, "delta": delta, "n": n, "u0": u0, "seed": ck.seed, "w_hex": [float(x).hex() for x in w]})
+                        break
+    return done
+
+
 def main():
     ck = core.Check("C06", "model_checking", description=__doc__)
     core.import_repo()
@@ -377,6 +453,10 @@ def main():
     if ck.args.replay:
         with open(ck.args.replay) as f:
             rp = json.load(f)["replay"]
+        if rp.get("kind") in ("large", "renorm"):
+            before = ck.violations
+            large_part(ck, np, tools, np.random.RandomState(rp["seed"] + 6060), quick)
+            sys.exit(1 if ck.violations > before else 0)
         w = [float.fromhex(h) for h in rp["w_hex"]]
         if rp.get("kind") == "mult":
             case, info, err = record_mult(np, StateManager, Resampler, rp["sizes"], rp["blobs"], rp["n"], rp["seed"], w)
@@ -423,6 +503,7 @@ def main():
             raise RuntimeError("numpy.random.choice does not follow the cdf/searchsorted model on this numpy")
         spec_mult = 0
         replayed = 0
+        transliteration_checked = 0
         skipped_breakpoints_nondyadic = 0
         matched_intended = 0
         follows_impl_where_differs = 0
@@ -464,6 +545,10 @@ def main():
             if script.calls == 0:
                 script_unused += 1
             want_out, want_err = tuple(st["idx"]), st["err"]
+            if st["fam"] in ("exact", "degen") and not want_err:
+                if spec_comb(n, list(a), Q, k) != want_out:
+                    raise RuntimeError(f"transliteration of the comb disagrees with Resample.tla on {st}")
+                transliteration_checked += 1
             alt = st["alt"]
             if any(ai == 0 for ai in a) or any((n * ai) % Q for ai in a) or sum(a) != Q:
                 nontrivial.add((n, tuple(a), Q, k))
@@ -531,6 +616,9 @@ def main():
                     out, err, script = call_systematic(np, tools, n, w, u0)
                     struct_cases.append((dict(n=n, nw=len(w), zero=zero, out=() if err else out, err=err, rows=()),
                                          dict(kind="ieee", n=n, w=w, u0=u0, got=out)))
+
+        # ---- long weight vectors and vectors outside the no-renormalisation band
+        large_done = large_part(ck, np, tools, np.random.RandomState(ck.seed + 6060), quick)
 
         # ---- posterior(resample=True): same routine behind SamplerCore.compute_posterior
         for logl in ([-2000.0, -1.0, -2.0], [-1.0, -2.0, -2000.0], [-1.0, -2000.0, -1.5, -3.0]):
@@ -749,6 +837,9 @@ def main():
         "code_follows_impl_variant_there": follows_impl_where_differs,
         "skipped_nondyadic_breakpoints": skipped_breakpoints_nondyadic,
         "ieee_posterior_resampler_cases": len(struct_cases),
+        "long_weight_vectors_judged_by_validated_transliteration": large_done["long_vectors"],
+        "transliteration_validated_against_TLC_states": transliteration_checked,
+        "vectors_outside_the_no_renormalisation_band": large_done["renormalised_vectors"],
         "multinomial_traces": len(mult_cases),
         "multinomial_spec_states": spec_mult,
         "impl_variant_counterexamples": impl_counterexamples,
